@@ -282,8 +282,87 @@ func (nf *NilFlow) transfer(in ssa.Instruction, f factSet) {
 	case *ssa.FieldAddr:
 		f[AccessPath(x.X)] = true
 	case *ssa.Call:
-		// a successful method call with a non-tolerant receiver would imply non-nil, but we do not rely on that
+		// a helper that makes a field of its argument non-nil on every path (if x.F == nil { x.F = new }):
+		// the field is non-nil after the call
+		if cal := x.Call.StaticCallee(); cal != nil && nf.c.isRepoFn(cal) && !nf.busy {
+			for _, ef := range nf.c.ensuredFields(cal) {
+				if ef.param < len(x.Call.Args) {
+					f[AccessPath(x.Call.Args[ef.param])+"."+ef.field] = true
+				}
+			}
+		}
 	}
+}
+
+type ensuredField struct {
+	param int
+	field string
+}
+
+var ensuredCache = map[*ssa.Function][]ensuredField{}
+
+// ensuredFields: (parameter, field) pairs such that the field of the pointed-to struct is non-nil at every
+// return of fn. Only small functions that store into a field of a parameter are considered.
+func (c *Ctx) ensuredFields(fn *ssa.Function) []ensuredField {
+	if v, done := ensuredCache[fn]; done {
+		return v
+	}
+	ensuredCache[fn] = nil
+	if fn.Blocks == nil || len(fn.Blocks) > 8 {
+		return nil
+	}
+	type cand struct {
+		param int
+		f     *types.Var
+		path  string
+	}
+	var cands []cand
+	eachInstr(fn, func(in ssa.Instruction) {
+		st, isS := in.(*ssa.Store)
+		if !isS || isNilConst(st.Val) {
+			return
+		}
+		_, f, base := fieldOf(st.Addr)
+		if f == nil || !refKinded(f.Type()) {
+			return
+		}
+		for i := range fn.Params {
+			if isParamN(fn, base, i) {
+				cands = append(cands, cand{i, f, AccessPath(st.Addr)})
+			}
+		}
+	})
+	if len(cands) == 0 {
+		return nil
+	}
+	nf := c.NilFlow(fn)
+	var out []ensuredField
+	for _, cd := range cands {
+		all, n := true, 0
+		for _, b := range fn.Blocks {
+			r, isR := b.Instrs[len(b.Instrs)-1].(*ssa.Return)
+			if !isR || b == fn.Recover {
+				continue
+			}
+			n++
+			if !nf.FactsAt(r)[cd.path] {
+				all = false
+			}
+		}
+		if all && n > 0 {
+			dup := false
+			for _, o := range out {
+				if o.param == cd.param && o.field == cd.f.Name() {
+					dup = true
+				}
+			}
+			if !dup {
+				out = append(out, ensuredField{cd.param, cd.f.Name()})
+			}
+		}
+	}
+	ensuredCache[fn] = out
+	return out
 }
 
 // valueNonNil: v is certainly non-nil given facts f.
